@@ -870,7 +870,8 @@ impl RawAutomaton {
         let (transitions, markers) = RawAutomaton::filter_map_transitions(
             &transitions,
             |state| renaming.get(&state).copied(),
-            transitions.len() - self.final_states.len(),
+            // (the initial state is kept even when it is final)
+            renaming.len(),
             0,
         );
         Self {
